@@ -16,6 +16,7 @@
 #include <exception>
 #include <fstream>
 #include <limits>
+#include <deque>
 #include <functional>
 #include <iostream>
 #include <map>
@@ -194,6 +195,12 @@ void guarded(const Out& out, const char* name, F&& f) {
 }
 
 // Overwrite memory with 0xDD in a way the optimiser may not drop before a free().
+// some unrelated heap traffic, so that freed blocks get reused
+inline void scrub_heap() {
+    std::vector<std::unique_ptr<std::string>> junk;
+    for (size_t i = 0; i < 64; ++i) junk.push_back(std::make_unique<std::string>(16 + i * 8, static_cast<char>(0xDD)));
+}
+
 void scrub(void* p, size_t n) {
     if (p == nullptr || n == 0) return;
     std::memset(p, 0xDD, n);
@@ -1028,6 +1035,48 @@ struct TrieSession {
                 }
                 out("truncall " + u64s(bytes.size()) + " " + (list.empty() ? std::string("-") : list));
             });
+        } else if (o == "PIPELOAD") {   // the saved bytes arrive through a named pipe (not seekable): `pipeload <hex of a re-save>`
+            if (tk.size() != 1) return (void)bad_arg(out, line);
+            guarded(out, "pipeload", [&] {
+                std::vector<std::uint8_t> bytes = saved_image(*cur);
+                const std::string fifo = tmp_path("_fifo");
+                if (::mkfifo(fifo.c_str(), 0600) != 0) throw std::runtime_error("mkfifo failed");
+                const pid_t w = ::fork();
+                if (w == 0) {
+                    const int fd = ::open(fifo.c_str(), O_WRONLY);
+                    size_t off = 0;
+                    while (fd >= 0 && off < bytes.size()) {
+                        const ssize_t n = ::write(fd, bytes.data() + off, std::min<size_t>(bytes.size() - off, 3000));
+                        if (n <= 0) break;
+                        off += static_cast<size_t>(n);
+                    }
+                    if (fd >= 0) ::close(fd);
+                    ::_exit(0);
+                }
+                std::string res;
+                try {
+                    Trie t = xcdat::load<Trie>(fifo);
+                    std::vector<std::uint8_t> again = saved_image(t);
+                    res = (again == bytes) ? "same" : "differs";
+                } catch (const xcdat::exception&) {
+                    res = "exc";
+                } catch (const std::exception& e) {
+                    res = "other:" + exc_name(e);
+                }
+                int st = 0;
+                if (w > 0) { ::kill(w, SIGKILL); ::waitpid(w, &st, 0); }
+                ::unlink(fifo.c_str());
+                out("pipeload " + res);
+            });
+        } else if (o == "RELOADHERE") {  // the current object is assigned its own reloaded save; live iterators stay bound to it
+            if (tk.size() != 1) return (void)bad_arg(out, line);
+            guarded(out, "reloadhere", [&] {
+                TempFile tf;
+                xcdat::save(*cur, tf.path);
+                *cur = xcdat::load<Trie>(tf.path);
+                scrub_heap();
+                out("reloadhere ok");
+            });
         } else if (o == "SAVEOVER") {   // save onto an existing file that is <extra> bytes longer than the dictionary
             std::uint64_t extra = 0;
             if (tk.size() != 2 || !parse_u64(tk[1], extra)) return (void)bad_arg(out, line);
@@ -1487,7 +1536,7 @@ void run_cv_case(const Case& c, const Out& out) {
             if (tk.size() != 2 || !parse_u64(tk[1], x)) { bad_arg(out, line); continue; }
             vals.push_back(x);
         } else if (o == "CT") {       // silent: selects the container element type u8|u16|u32|u64
-            if (tk.size() != 2 || (tk[1] != "u8" && tk[1] != "u16" && tk[1] != "u32" && tk[1] != "u64")) { bad_arg(out, line); continue; }
+            if (tk.size() != 2 || (tk[1] != "u8" && tk[1] != "u16" && tk[1] != "u32" && tk[1] != "u64" && tk[1] != "deque")) { bad_arg(out, line); continue; }
             ctype = tk[1];
         } else if (o == "BUILD") {
             if (tk.size() != 1) { bad_arg(out, line); continue; }
@@ -1498,6 +1547,9 @@ void run_cv_case(const Case& c, const Out& out) {
                     cv = std::make_unique<xcdat::compact_vector>(ref);
                 } else if (ctype == "u16") {
                     const std::vector<std::uint16_t> ref = narrowed<std::uint16_t>(vals);
+                    cv = std::make_unique<xcdat::compact_vector>(ref);
+                } else if (ctype == "deque") {      // random access but not contiguous
+                    const std::deque<std::uint64_t> ref(vals.begin(), vals.end());
                     cv = std::make_unique<xcdat::compact_vector>(ref);
                 } else if (ctype == "u32") {
                     const std::vector<std::uint32_t> ref = narrowed<std::uint32_t>(vals);
